@@ -742,7 +742,8 @@ class Gen:
         if r < 0.45 + hot * 0.5:
             # markup characters
             n = self.rng.randint(1, min(maxlen, 10))
-            return "".join(self.rng.choice(self.ALNUM[:8] + MARKUP * 3 + " ") for _ in range(n)).strip() or "&"
+            # (quotes too: a serializer that escapes more than & < > writes entities the reader does not decode)
+            return "".join(self.rng.choice(self.ALNUM[:8] + MARKUP * 3 + "'\"'\" ") for _ in range(n)).strip() or "&"
         if r < 0.45 + hot * 0.65:
             s = self.word(0, 2) + self.rng.choice(ENTITIES) + self.word(0, 2)
             return s[:maxlen]
